@@ -443,6 +443,17 @@ func runC16(c *Ctx) []Obligation {
 			Assume: []Lit{T(`^app\.transactionCache\[baseapp\.TxCacheKey\(()?req\.Tx, \d+\)\]#1$`), T(`IsAfterNamedFeatureActivationHeight\(baseapp\.cdc, \(\*baseapp\.BaseApp\)\.LastBlockHeight\(app\), "REDUP"\)`)},
 			Target: CallTo(`\(\*baseapp\.BaseApp\)\.runTx\(`), Why: "a transaction already seen in this block is not executed again (TxCacheEnhancement active)"},
 	}
+	ante := `dyn:app\.anteHandler\(\(\*baseapp\.BaseApp\)\.cacheTxContext\(app, var:ctx, txBytes\)#0, tx, txBytes, app\.txIndexer, \(var:mode == 1\)\)`
+	rows = append(rows,
+		// a transaction that is NOT indexed (ante-level failure) must not have changed state, otherwise the
+		// duplicate check would let it change state again
+		Row{Prop: P, ID: "runTx.ante-abort-writes-nothing", Fn: fnRunTx, Assume: []Lit{T(`^nonnil\(app\.anteHandler\)$`), T(`^` + ante + `#3$`)},
+			Target: CallTo(`CacheMultiStore\.Write\(`), Why: "a transaction rejected by the ante handler (the only kind the indexer skips) leaves no write behind"},
+		Row{Prop: P, ID: "runTx.failed-messages-write-nothing", Fn: fnRunTx, Assume: []Lit{F(`^\(types\.Result\)\.IsOK\(var:result\)$`)},
+			Target: CallTo(`^invoke store/types\.CacheMultiStore\.Write\(invoke types\.MultiStore\.CacheMultiStore\(`), Why: "message effects of a failed transaction are dropped (it is still indexed, so it cannot run again)"},
+		Row{Prop: P, ID: "VT.lookup-key-is-tx-hash", Fn: fnVT,
+			Target: CallTo(`TxIndexer\.Get\(`).Except(`^` + aTxIdxGet + `$`), Why: "the duplicate lookup uses the hash the indexer files executed transactions under (Tx.Hash of the raw bytes)"},
+	)
 	out := c.Rows(rows)
 	out = append(out, c.replayKeyBytes(P), c.canonicalDecode(P))
 	return out
